@@ -51,15 +51,19 @@ func c15Param(alt, origin string) any {
 
 func c15List(x *mcx.Exec, label string, max int) []any {
 	var l []any
+	first := 0
 	for i := 0; i < max; i++ {
 		a := x.Choose(mcx.INPUT, len(c15Alts), fmt.Sprintf("%s[%d]", label, i))
 		if a == 0 {
 			break
 		}
+		if i == 0 {
+			first = a
+		}
 		l = append(l, c15Param(c15Alts[a], fmt.Sprintf("%s%d", label, i)))
 	}
 	// a fixed third element behind a full list (the third and later entries of a list)
-	if len(l) == max && label == "path" && x.Choose(mcx.INPUT, 2, label+"[third]") == 1 {
+	if len(l) == max && label == "path" && first == 1 && x.Choose(mcx.INPUT, 2, label+"[third]") == 1 {
 		// exactly one more: a decoded list of three has spare capacity (an append on it writes into the document's array)
 		l = append(l, c15Param("header:limit", label+"Third"))
 	}
@@ -73,6 +77,9 @@ func c15Gen(x *mcx.Exec, method string, max int) J {
 	}
 	for i, e := range c15Esc {
 		doc["parameters"].(J)[e.Name] = J{"name": fmt.Sprintf("esc%d", i), "in": "query", "type": "string", "description": "shared " + e.Name}
+	}
+	if method != "get" {
+		delete(doc, "info") // an optional part as far as loading is concerned: absent in the documents of the other six methods
 	}
 	if x.Choose(mcx.INPUT, 2, "no paths") == 1 {
 		return doc
